@@ -308,7 +308,7 @@ def table_bound():
     state's tests per line plus, per guarded branch visit, one look-ahead visit of each line"""
     from translate import parser_table
     try:
-        t = parser_table.extract(open(os.path.join(core.REPO, "python/gherkin/parser.py"), encoding="utf8").read())
+        t = core.current_parser_table()
     except Exception:
         return 20      # the constant proved for the baseline table (C01_work_per_token); the translator failure is reported separately
     max_tests = max(len(r["branches"]) for r in t["rows"])
@@ -557,7 +557,7 @@ def run_C01(ctx: Ctx) -> Result:
 def state_prefixes():
     """a shortest line-kind path to every state of the current parser.py (guards taken optimistically)"""
     from translate import parser_table
-    t = parser_table.extract(open(os.path.join(core.REPO, "python/gherkin/parser.py"), encoding="utf8").read())
+    t = core.current_parser_table()
     rows = {r["id"]: r for r in t["rows"]}
     K = impl.KINDS
     pre = {0: []}
@@ -622,6 +622,21 @@ def run_C02(ctx: Ctx) -> Result:
     # text level: acceptance of real documents = model's
     docs = streams.corpus_docs() + streams.doc_mix(ctx.rng, ctx.n(600, 6000))
     res.merge(streams.parse_stream(docs, lambda o: {"class": outcome_class(o)}, modes=(False,)))
+    # translator validation: the table read from the source text (translate/parser_table.py) must be the table
+    # observed by driving the real `match_token` exhaustively (translate/parser_behaviour.py)
+    try:
+        tb = core.behavioural_parser_table()
+        ts = core.current_parser_table()
+        strip = lambda t: [{k: v for k, v in r.items() if k != "comment"} for r in t["rows"]]   # noqa: E731
+        res.note({"translator_cross_check": ts.get("via", "syntactic")}, True)
+        if (strip(tb), tb["lookaheads"], tb["startRule"], tb["errorCap"]) != (strip(ts), ts["lookaheads"], ts["startRule"], ts["errorCap"]):
+            d_ = next((a["id"] for a, b in zip(strip(tb), strip(ts)) if a != b), "?")
+            res.fail("translator", {"state": d_}, next((a for a, b in zip(strip(tb), strip(ts)) if a != b), None),
+                     next((b for a, b in zip(strip(tb), strip(ts)) if a != b), None),
+                     "the transition table read from parser.py's text differs from the one observed by driving match_token (state %s)" % d_)
+    except Exception as e:
+        res.stats["translator_cross_check_error"] = 1
+        res.note({"translator_cross_check_error": str(e)[:200]}, False)
     # siblings: the witness of a broken C02_sibling_* theorem is the differing (state, branch)
     for b in ctx.broken:
         if b["kind"] == "proof" and "C02Siblings" in b["name"]:
@@ -632,7 +647,7 @@ def run_C02(ctx: Ctx) -> Result:
 
 def sibling_diff():
     from translate import parser_table, siblings
-    py = parser_table.extract(open(os.path.join(core.REPO, "python/gherkin/parser.py"), encoding="utf8").read())
+    py = core.current_parser_table()
     out = []
 
     def norm_row(r):
